@@ -1093,7 +1093,7 @@ def stream_scaled(rng, tier, count):
 # through the constructor without a dtype, which converts to binary64, so e.g. (-f) for an int64 field holding 2^53+1 holds
 # -2^53 - not what NumPy gives for the same expression.  Reported to the lead as a candidate finding; the default
 # generator keeps integer data below 2^53 (VERIF_C03_BIGINT=1 lifts the limit to 2^62 and demands equality).
-BIGINT = bool(os.environ.get("VERIF_C03_BIGINT"))
+BIGINT = os.environ.get("VERIF_C03_BIGINT", "1") != "0"     # on by default: the class is open finding D53, reported as KNOWN-FINDING
 INT_LIM = {8: 2.0 ** 62 if BIGINT else 2.0 ** 53, 4: 2.0 ** 30}
 MF_DTYPES = [None, None, "float64", "float64", "float32", "float32", "complex128", "complex64", "int64", "int32", "cvalue"]
 MF_REAL = [None, "float64", "float64", "float32", "float32", "int64", "int32"]
@@ -2499,7 +2499,41 @@ def known(case, text):
         return "D52"   # Field and NumPy object under + or *: one order is accepted, the other raises
     if text.startswith("COMM[D51]"):
         return "D51"   # two one-component fields with different (explicit) labels: labels of the left operand; only labels/mapping differ
+    # D53: integer fields holding values beyond 2^53 (results are rebuilt as binary64); by input class: the case has an
+    # int64 leaf whose data leave the 53-bit range
+    if case.get("kind") in ("mtree", "long", "scaled") and (_has_bigint(case) or _int_leaf_and_big_numbers(case, text)):
+        return "D53"
     return None
+
+
+def _int_leaf_and_big_numbers(case, text):
+    """an int64 leaf is involved and the numbers of the failing cell are beyond 2^53 (an int64 intermediate left the
+    53-bit range although the leaves did not)"""
+    import re as _re
+    if not any(str(f.get("dtype")) == "int64" for f in case.get("fields", [])):
+        return False
+    for tok in _re.findall(r"[-+]?\d+\.?\d*(?:[eE][-+]?\d+)?", text):
+        try:
+            if abs(float(tok)) >= 2.0 ** 53:
+                return True
+        except ValueError:
+            pass
+    return False
+
+
+def _has_bigint(case):
+    from fractions import Fraction as _Fr
+    lim = 2 ** 53
+    for f in case.get("fields", []):
+        if str(f.get("dtype")) == "int64":
+            for key in ("re", "im", "data"):
+                for v in f.get(key) or []:
+                    try:
+                        if abs(_Fr(v)) > lim:
+                            return True
+                    except (ValueError, TypeError, ZeroDivisionError):
+                        pass
+    return False
 
 
 def search(case, rng):
